@@ -371,6 +371,29 @@ def do_c07():
                 except Exception as e:
                     report(f"C07:raises:{lname}:{type(e).__name__}", f"helix array with layout {lname} raised {type(e).__name__}: {str(e)[:200]}",
                            {"tracks": P, "pivot": p0, "new_pivot": p1, "layout": lname, "pivot_form": pform})
+        # views of helix arrays themselves (sliced / index-selected), nesting depth 1 and 2
+        if m >= 4:
+            for vname, base_counts in (("events", [[1, m - 3, 2]]), ("runs-events", [[1, m - 3, 2], [2, 1]])):
+                try:
+                    a = ak.Array(np.array(P))
+                    for cnt in base_counts: a = ak.unflatten(a, cnt)
+                    kw = {c: a[..., k] for k, c in enumerate(fields)}
+                    kw["pivot"] = ak.zip({"x": ak.ones_like(kw["dr"]) * p0[0], "y": ak.ones_like(kw["dr"]) * p0[1], "z": ak.ones_like(kw["dr"]) * p0[2]}, with_name="Vector3D")
+                    ha = p3.helix_awk(**kw)
+                    nouter = len(ha)
+                    for view, sel in (("sliced", slice(1, None)), ("indexed", list(range(nouter))[::-1])):
+                        bump(f"layout:view-{view}-{vname}")
+                        hv = ha[sel]; out = hv.change_pivot(*p1); n_eval += 1
+                        srcdr = ak.to_numpy(ak.flatten(hv.dr, axis=None)); srcphi = ak.to_numpy(ak.flatten(hv.phi0, axis=None))
+                        got = ak.to_numpy(ak.flatten(out.dr, axis=None))
+                        if ak.to_list(ak.num(out.dr, axis=-1)) != ak.to_list(ak.num(hv.dr, axis=-1)):
+                            report(f"C07:nesting-changed:view-{view}-{vname}", "output nesting differs from the view's nesting", {"tracks": P, "view": view, "nesting": vname})
+                        for t in range(len(srcdr)):
+                            j = next(k for k in range(m) if P[k][0] == srcdr[t] and P[k][1] == srcphi[t])
+                            if abs(got[t] - ref[j]["cp"][0]) > 1e-9 * scale(P[j], p0, p1):
+                                report(f"C07:array-differs-from-object:change_pivot:view-{view}-{vname}", f"track {j} in a {view} view", {"tracks": P, "pivot": p0, "new_pivot": p1}); break
+                except Exception as e:
+                    report(f"C07:raises:view-{vname}:{type(e).__name__}", f"{vname} helix array view raised {type(e).__name__}: {str(e)[:200]}", {"tracks": P, "pivot": p0, "new_pivot": p1, "nesting": vname})
         # permutation equivariance on the flat layout
         perm = list(range(m)); rng.shuffle(perm)
         a1 = awk(P, [p0] * m).change_pivot(*p1); a2 = awk([P[k] for k in perm], [p0] * m).change_pivot(*p1); n_eval += 1
